@@ -9,9 +9,12 @@ import (
 	"strconv"
 
 	"cvsslint/internal/facts"
+	"cvsslint/internal/ir"
 	"cvsslint/internal/load"
 	"cvsslint/internal/report"
 	"cvsslint/internal/spec"
+
+	"golang.org/x/tools/go/ssa"
 )
 
 // Env is what every rule set receives.
@@ -19,6 +22,8 @@ type Env struct {
 	P *load.Program
 	F *facts.Facts
 	C *report.Ctx
+
+	builders map[*ssa.Function]*ir.Builder
 }
 
 type RuleFunc func(e *Env)
